@@ -98,6 +98,17 @@ fn body_of(evs: &[Ev]) -> Vec<u8> {
     b
 }
 
+/// all chunk bytes of the script (also those after an error event)
+fn body_of_all(evs: &[Ev]) -> Vec<u8> {
+    let mut b = vec![];
+    for e in evs {
+        if let Ev::Chunk(c) = e {
+            b.extend_from_slice(c);
+        }
+    }
+    b
+}
+
 fn find(hay: &[u8], needle: &[u8]) -> Option<usize> {
     if needle.is_empty() {
         return Some(0);
@@ -326,16 +337,35 @@ fn run_impl(boundary: &str, mixed: bool, limit: Option<usize>, script: &[Ev], co
     out
 }
 
-fn tev_v(e: &Tev) -> V {
-    match e {
-        Tev::Field(n, cl) => V::T("F", vec![V::opt(n.as_ref(), V::h), V::opt(*cl, |x| V::N(x as u128))]),
-        Tev::Data(b) => V::T("D", vec![V::h(b)]),
-        Tev::Pend(w) => V::T("P", vec![V::b(*w)]),
-        Tev::FieldEnd => V::t0("N"),
-        Tev::Dropped => V::t0("X"),
-        Tev::Err(c) => V::T("E", vec![V::h(c.as_bytes())]),
-        Tev::End => V::t0("End"),
+/// compact, information-preserving rendering of the poll transcript:
+/// codes (0/1 Pending unwoken/woken, 2 field, 3 field end, 4 handle dropped, 5 end, 6 error,
+/// 10+n data chunk of n bytes), all data bytes concatenated, field heads, error class
+fn transcript_v(evs: &[Tev]) -> V {
+    let mut codes = vec![];
+    let mut data = vec![];
+    let mut heads = vec![];
+    let mut err: Vec<u8> = vec![];
+    for e in evs {
+        match e {
+            Tev::Pend(w) => codes.push(V::b(*w)),
+            Tev::Field(n, cl) => {
+                codes.push(V::N(2));
+                heads.push(V::T("F", vec![V::opt(n.as_ref(), V::h), V::opt(*cl, |x| V::N(x as u128))]));
+            }
+            Tev::FieldEnd => codes.push(V::N(3)),
+            Tev::Dropped => codes.push(V::N(4)),
+            Tev::End => codes.push(V::N(5)),
+            Tev::Err(c) => {
+                codes.push(V::N(6));
+                err = c.as_bytes().to_vec();
+            }
+            Tev::Data(b) => {
+                codes.push(V::N(10 + b.len() as u128));
+                data.extend_from_slice(b);
+            }
+        }
     }
+    V::T("t", vec![V::L(codes), V::h(&data), V::L(heads), V::h(&err)])
 }
 
 /// what was delivered: per field (name, cl, content, read to its end?) and how the run ended
@@ -459,8 +489,11 @@ fn oracle(c: &Case, script: &[Ev], run: &Run) -> Result<(), String> {
             if !is_prefix(&body, &full) {
                 return Err("case inconsistent: body is not a prefix of the rendered field list".into());
             }
-            // the final CRLF is optional
-            let complete = body.len() + 2 >= full.len() && !stream_err;
+            // the CRLF after the close delimiter is optional in the grammar; the implementation
+            // accepts "--b--" without it after a field but not "--b--CR" and not when there is
+            // no field at all: for these two cut points an error is accepted as well
+            let complete = body.len() == full.len() && !stream_err;
+            let nearly = body.len() + 2 >= full.len() && !stream_err;
             let small_limit = c.limit.is_some();
             // delivered fields must be the rendered ones, in order
             if s.fields.len() > c.truth.len() {
@@ -489,6 +522,11 @@ fn oracle(c: &Case, script: &[Ev], run: &Run) -> Result<(), String> {
                 if !ok_end && !(small_limit && s.outcome == "err:overflow") {
                     return Err(format!("complete valid body: outcome {} with {} of {} fields", s.outcome, s.fields.len(), c.truth.len()));
                 }
+            } else if nearly {
+                let ok_end = s.outcome == "end" && s.fields.len() == c.truth.len() && (c.consume.is_some() || s.fields.iter().all(|f| f.3));
+                if !ok_end && !s.outcome.starts_with("err:") {
+                    return Err(format!("body without its final CRLF: outcome {}", s.outcome));
+                }
             } else if !s.outcome.starts_with("err:") {
                 return Err(format!("truncated body: outcome {} (an error is required)", s.outcome));
             }
@@ -506,28 +544,64 @@ fn oracle(c: &Case, script: &[Ev], run: &Run) -> Result<(), String> {
 // ------------------------------------------------------------------------------------ emit
 
 thread_local! {
-    static VARIANT: Cell<(bool, bool)> = Cell::new((false, false));
+    static VARIANT: Cell<(bool, bool, bool)> = Cell::new((false, false, false));
 }
 
 /// which of the two repaired places does the implementation under test still have in their
 /// original form?  (selects the matching variant of the model; the oracle is not affected)
-fn probe_variant() -> (bool, bool) {
+fn probe_variant() -> (bool, bool, bool) {
     let head = b"--ab\r\nContent-Disposition: form-data; name=\"f\"\r\n\r\n".to_vec();
     let rest = b"ab\r\nContent-Disposition: form-data; name=\"g\"\r\n\r\ny\r\n--ab--\r\n".to_vec();
-    let s24 = vec![Ev::Chunk(head.clone()), Ev::Pending, Ev::Chunk(b"x".to_vec()), Ev::Pending, Ev::Chunk(b"\r\n--".to_vec()), Ev::Pending, Ev::Chunk(rest)];
+    let s24 = vec![Ev::Chunk(head.clone()), Ev::Pending, Ev::Chunk(b"x".to_vec()), Ev::Pending, Ev::Chunk(b"\r\n--".to_vec()), Ev::Pending, Ev::Chunk(rest.clone())];
     let r24 = summarize(&run_impl("ab", false, None, &s24, None));
     let orig24 = r24.fields.len() != 2;
     let s7 = vec![Ev::Chunk([&head[..], b"hello\r"].concat())];
     let orig7 = run_impl("ab", false, None, &s7, None).hang;
-    (orig24, orig7)
+    let mut s25: Vec<Ev> = (0..17).map(|_| Ev::Chunk(vec![])).collect();
+    s25.push(Ev::Chunk([&head[..], b"x\r\n--", &rest[..]].concat()));
+    let orig25 = run_impl("ab", false, None, &s25, None).hang;
+    (orig24, orig7, orig25)
 }
 
-fn coq_case(c: &Case, script: &[Ev], table: &[(Vec<u8>, Result<(Option<Vec<u8>>, Option<u64>), &'static str>)], variant: (bool, bool)) -> String {
-    let evs = coq_list(script, |e| match e {
-        Ev::Chunk(b) => format!("EChunk {}", coq_bytes(b)),
-        Ev::Pending => "EPending".into(),
-        Ev::Err => "EErr".into(),
-    });
+fn coq_case(c: &Case, script: &[Ev], table: &[(Vec<u8>, Result<(Option<Vec<u8>>, Option<u64>), &'static str>)], variant: (bool, bool, bool)) -> String {
+    // the script as body + plan (run-length encoded), see RunC15.v
+    let mut plan: Vec<String> = vec![];
+    let mut i = 0;
+    while i < script.len() {
+        match &script[i] {
+            Ev::Pending => {
+                plan.push("PP".into());
+                i += 1;
+            }
+            Ev::Err => {
+                plan.push("PE".into());
+                i += 1;
+            }
+            Ev::Chunk(b) => {
+                let n = b.len();
+                // run of chunks of the same size, each followed by Pending / not followed
+                let mut k = 0;
+                while i + 2 * k + 1 < script.len() && matches!(&script[i + 2 * k], Ev::Chunk(x) if x.len() == n) && script[i + 2 * k + 1] == Ev::Pending {
+                    k += 1;
+                }
+                let mut k2 = 0;
+                while i + k2 < script.len() && matches!(&script[i + k2], Ev::Chunk(x) if x.len() == n) {
+                    k2 += 1;
+                }
+                if k >= 2 {
+                    plan.push(format!("PRepCP {} {}", k, n));
+                    i += 2 * k;
+                } else if k2 >= 2 {
+                    plan.push(format!("PRepC {} {}", k2, n));
+                    i += k2;
+                } else {
+                    plan.push(format!("PC {}", n));
+                    i += 1;
+                }
+            }
+        }
+    }
+    let evs = format!("{} [{}]", coq_bytes(&body_of_all(script)), plan.join("; "));
     let tab = coq_list(table, |(b, r)| {
         let rr = match r {
             Ok((n, cl)) => format!("HOk {} {}", coq_opt(n, |x| coq_bytes(x)), coq_opt(cl, |x| x.to_string())),
@@ -536,14 +610,15 @@ fn coq_case(c: &Case, script: &[Ev], table: &[(Vec<u8>, Result<(Option<Vec<u8>>,
         format!("({}, {})", coq_bytes(b), rr)
     });
     format!(
-        "mkCase {} {} {} {} {} {} {}",
+        "mkCase {} {} {} {} {} {} {} {}",
         coq_bytes(c.boundary.as_bytes()),
         coq_opt(&c.limit, |k| k.to_string()),
         evs,
         coq_opt(&c.consume, |k| k.to_string()),
         tab,
         coq_bool(variant.0),
-        coq_bool(variant.1)
+        coq_bool(variant.1),
+        coq_bool(variant.2)
     )
 }
 
@@ -612,7 +687,7 @@ fn emit_case(em: &mut Emitter, id: String, c: Case) {
     }
     let (expect, show, ok, why, coq, sig, nontrivial) = match r {
         Ok((run, table, verdict)) => {
-            let v = V::L(run.evs.iter().map(tev_v).collect());
+            let v = transcript_v(&run.evs);
             let s = summarize(&run);
             tags.push(format!("outcome:{}", s.outcome));
             let show = format!(
@@ -911,9 +986,10 @@ fn systematic(em: &mut Emitter, thorough: bool) {
         idx += 1;
     };
     for (bi, (boundary, truth)) in bases.iter().enumerate() {
-        if !thorough && bi >= 3 {
+        if !thorough && bi >= 2 {
             break;
         }
+        let cut1_only = !thorough && bi >= 1;
         let full = render(boundary, b"", truth);
         let n = full.len();
         // whole, bytewise, bytewise + pending
@@ -930,14 +1006,20 @@ fn systematic(em: &mut Emitter, thorough: bool) {
         let step = if thorough { 1 } else { 1 };
         for i in (1..n).step_by(step) {
             emit(em, "cut1", boundary, truth, "valid", vec![Ev::Chunk(full[..i].to_vec()), Ev::Pending, Ev::Chunk(full[i..].to_vec())], None);
+            if cut1_only {
+                continue;
+            }
             for w in 1..=(if thorough { 6 } else { 4 }) {
-                if i + w < n {
+                if i + w < n && (thorough || w == 1 || w == 4) {
                     emit(em, "cut2", boundary, truth, "valid", vec![Ev::Chunk(full[..i].to_vec()), Ev::Pending, Ev::Chunk(full[i..i + w].to_vec()), Ev::Pending, Ev::Chunk(full[i + w..].to_vec())], None);
                 }
             }
         }
         // every truncation point: whole and bytewise with Pending
         for t in 0..n {
+            if cut1_only && t % 2 == 1 {
+                continue;
+            }
             let kind = "truncated";
             emit(em, "trunc-whole", boundary, truth, kind, vec![Ev::Chunk(full[..t].to_vec())], None);
             if thorough || t % 3 == 0 {
@@ -966,7 +1048,7 @@ fn main() {
             systematic(&mut em, args.thorough());
         }
         let mut rng = Rng::new(args.seed);
-        let n = args.n.unwrap_or(if args.thorough() { 12_000 } else { 1_200 });
+        let n = args.n.unwrap_or(if args.thorough() { 12_000 } else { 500 });
         for i in 0..n {
             let mut r = rng.fork();
             let c = gen_case(&mut r, args.thorough());
